@@ -505,6 +505,93 @@ Definition I_div (dbg : bool) (w : Z) (self : list Z) (rhs : list Z) : outcome (
 Definition I_rem (dbg : bool) (w : Z) (self : list Z) (rhs : list Z) : outcome (list Z) :=
   if (andb (Core.eq_digits self (Core.IMIN w (length self))) (Core.eq_digits rhs (Core.NEG_ONE w (length self)))) then Panic else (if (Core.is_zero rhs) then Panic else (omap (fun (r1 : (list Z * list Z)) => (snd r1)) (Div.I_div_rem_unchecked dbg w self rhs))).
 
+(* ---- src/int/ops.rs (macro impls) ---- *)
+Definition U_Add_add (dbg : bool) (w : Z) (self : list Z) (rhs : list Z) : outcome (list Z) :=
+  AddSub.U_add dbg w self rhs.
+
+Definition U_Mul_mul (dbg : bool) (w : Z) (self : list Z) (rhs : list Z) : outcome (list Z) :=
+  Mul.U_mul dbg w self rhs.
+
+Definition U_Not_ref_not (w : Z) (self : list Z) : list Z :=
+  Core.bitnot w self.
+
+Definition U_Shl_ExpType_shl (dbg : bool) (w : Z) (self : list Z) (rhs : Z) : outcome (list Z) :=
+  Shift.U_shl dbg w self rhs.
+
+Definition U_Shr_ExpType_shr (dbg : bool) (w : Z) (self : list Z) (rhs : Z) : outcome (list Z) :=
+  Shift.U_shr dbg w self rhs.
+
+Definition U_Sub_sub (dbg : bool) (w : Z) (self : list Z) (rhs : list Z) : outcome (list Z) :=
+  AddSub.U_sub dbg w self rhs.
+
+Definition I_Add_add (dbg : bool) (w : Z) (self : list Z) (rhs : list Z) : outcome (list Z) :=
+  AddSub.I_add dbg w self rhs.
+
+Definition I_Mul_mul (dbg : bool) (w : Z) (self : list Z) (rhs : list Z) : outcome (list Z) :=
+  Mul.I_mul dbg w self rhs.
+
+Definition I_Not_ref_not (w : Z) (self : list Z) : list Z :=
+  Core.bitnot w self.
+
+Definition I_Shl_ExpType_shl (dbg : bool) (w : Z) (self : list Z) (rhs : Z) : outcome (list Z) :=
+  Shift.I_shl dbg w self rhs.
+
+Definition I_Shr_ExpType_shr (dbg : bool) (w : Z) (self : list Z) (rhs : Z) : outcome (list Z) :=
+  Shift.I_shr dbg w self rhs.
+
+Definition I_Sub_sub (dbg : bool) (w : Z) (self : list Z) (rhs : list Z) : outcome (list Z) :=
+  AddSub.I_sub dbg w self rhs.
+
+(* ---- src/buint/ops.rs (macro ops) ---- *)
+Definition U_BitAnd_bitand (w : Z) (self : list Z) (rhs : list Z) : list Z :=
+  Core.bitand self rhs.
+
+Definition U_BitOr_bitor (w : Z) (self : list Z) (rhs : list Z) : list Z :=
+  Core.bitor self rhs.
+
+Definition U_BitXor_bitxor (w : Z) (self : list Z) (rhs : list Z) : list Z :=
+  Core.bitxor self rhs.
+
+Definition U_Div_div (w : Z) (self : list Z) (rhs : list Z) : outcome (list Z) :=
+  Div.U_div w self rhs.
+
+Definition U_Div_digit_div (w : Z) (self : list Z) (rhs : Z) : outcome (list Z) :=
+  omap (fun (r1 : (list Z * Z)) => (fst r1)) (if Z.eqb rhs 0 then Panic else Ret (Div.div_rem_digit w self rhs)).
+
+Definition U_Not_not (w : Z) (self : list Z) : list Z :=
+  Core.bitnot w self.
+
+Definition U_Rem_rem (w : Z) (self : list Z) (rhs : list Z) : outcome (list Z) :=
+  Div.U_rem w self rhs.
+
+Definition U_Rem_digit_rem (w : Z) (self : list Z) (rhs : Z) : outcome (Z) :=
+  omap (fun (r1 : (list Z * Z)) => (snd r1)) (if Z.eqb rhs 0 then Panic else Ret (Div.div_rem_digit w self rhs)).
+
+(* ---- src/bint/ops.rs (macro ops) ---- *)
+Definition I_Neg_neg (dbg : bool) (w : Z) (self : list Z) : outcome (list Z) :=
+  AddSub.I_neg dbg w self.
+
+Definition I_Neg_ref_neg (dbg : bool) (w : Z) (self : list Z) : outcome (list Z) :=
+  AddSub.I_neg dbg w self.
+
+Definition I_BitAnd_bitand (w : Z) (self : list Z) (rhs : list Z) : list Z :=
+  Core.bitand self rhs.
+
+Definition I_BitOr_bitor (w : Z) (self : list Z) (rhs : list Z) : list Z :=
+  Core.bitor self rhs.
+
+Definition I_BitXor_bitxor (w : Z) (self : list Z) (rhs : list Z) : list Z :=
+  Core.bitxor self rhs.
+
+Definition I_Div_div (dbg : bool) (w : Z) (self : list Z) (rhs : list Z) : outcome (list Z) :=
+  Div.I_div dbg w self rhs.
+
+Definition I_Not_not (w : Z) (self : list Z) : list Z :=
+  Core.bitnot w self.
+
+Definition I_Rem_rem (dbg : bool) (w : Z) (self : list Z) (rhs : list Z) : outcome (list Z) :=
+  Div.I_rem dbg w self rhs.
+
 (* ---- src/int/unchecked.rs (macro impls) ---- *)
 Definition U_unchecked_add (w : Z) (self : list Z) (rhs : list Z) : option (list Z) :=
   AddSub.U_checked_add w self rhs.
